@@ -326,6 +326,16 @@ class Scenario:
             if self.burst is None:
                 sess.send_event(chars, raw)
                 rec["end_offset"] = conn.queued_a2c
+                if raw is None:
+                    # a real accessory notifies EVERY connection on which the characteristic is registered: if the controller holds a
+                    # second open, subscribed connection, its listeners hear the event twice
+                    for other in self.w.acc.sessions:
+                        oc = getattr(other, "conn", None)
+                        if other is sess or oc is None or not other.secure or other.closed or not oc.client_open or not oc.server_open:
+                            continue
+                        if any((a, i) in other.subscriptions for a, i, _ in chars):
+                            self.ctx.probe("event_also_sent_on_another_open_connection")
+                            other.send_event(chars, raw)
             else:
                 sess.send_event(chars, raw)
             recs.append(rec)
@@ -666,6 +676,13 @@ class Scenario:
                         ctx.violate("C05.outbound-content", "written-value",
                                     f"call #{rec['no']}: accessory decoded a different value for {(a, i)} than the caller wrote (len {len(str(v))})")
         if conn_no is not None:
+            cobj = self.w.net.conns[conn_no]
+            if cobj.client_close_reason == "eof" and cobj.t_client_closed is not None and rec["t_written"] <= cobj.t_client_closed and t1 > cobj.t_client_closed + TOL:
+                # the peer closed the connection (FIN processed): the request outstanding on it fails now, not when the transport
+                # has finished flushing or when the 30 s timer fires
+                ctx.violate("C08.late-completion", "after-peer-eof",
+                            f"call #{rec['no']} was outstanding on connection {conn_no} when the peer's FIN was processed at t={cobj.t_client_closed:.3f} "
+                            f"but completed only at t={t1:.3f} ({rec['exc']})")
             tl = self.w.net.conns[conn_no].t_lost_cb
             if tl is not None and rec["t_written"] <= tl and t1 > tl + TOL:
                 ctx.violate("C08.late-completion", "after-connection-loss",
@@ -785,6 +802,11 @@ class Scenario:
             if sc_["op"] == "subscribe":
                 t_end = sc_["t1"] if sc_["t1"] is not None else now
                 if any(c.t_client_closed is not None and sc_["t0"] - TOL <= c.t_client_closed <= t_end + TOL for c in self.w.net.conns):
+                    self.fallback_allowed = True
+                # ... or that was issued while the connection was already closing but its loss had not been reported yet (the
+                # transport is still flushing): the request fails with "Transport is closed"
+                if any(c.t_client_closed is not None and c.t_client_closed <= sc_["t0"] + TOL and (c.t_lost_cb is None or c.t_lost_cb >= sc_["t0"] - TOL)
+                       for c in self.w.net.conns):
                     self.fallback_allowed = True
         # ... and the connector's own re-subscription (inside connection setup) that ran into the loss of the connection it
         # had just verified: the request may never have been written, the library still falls back to polling
@@ -950,6 +972,12 @@ class Scenario:
                     ctx.violate("C05.corrupt-delivered", c["where"],
                                 f"call #{call['no']} completed normally although its response (stream bytes {rng[1]}..{rng[2]}) lies at/after the corrupted frame at {c['frame_start']} on conn {conn.no}")
             if c["where"] in ("ct", "tag") and c["t_full"] is not None:
+                for call in self.calls:
+                    if call.get("conn") == conn.no and call["t_written"] is not None and call["t_written"] <= c["t_full"] and (call["t1"] is None or call["t1"] > c["t_full"] + TOL):
+                        ctx.violate("C05.corrupt-request-hangs", c["where"],
+                                    f"a frame that fails authentication was fully received on conn {conn.no} at t={c['t_full']:.3f} while call #{call['no']} was outstanding on it; "
+                                    f"the call completed only at t={call['t1']} ({call.get('exc')})")
+                        break
                 if conn.client_open or (conn.t_client_closed is not None and conn.t_client_closed > c["t_full"] + TOL):
                     ctx.violate("C05.corrupt-not-closed", c["where"],
                                 f"corrupted frame fully received on conn {conn.no} at t={c['t_full']:.3f} but the controller closed at {conn.t_client_closed}")
